@@ -747,6 +747,12 @@ func generateSphinxPacket(rt *route.Route, paymentHash []byte,
 //  4. Total payment amount limits
 //  5. Attempt ID not yet used by the payment
 func verifyAttempt(payment *MPPayment, attempt *HTLCAttemptInfo) error {
+	// Everything below is decided by the payload of the final hop, so an
+	// attempt without any hop can't be validated, let alone be sent.
+	if attempt.Route.FinalHop() == nil {
+		return route.ErrNoRouteHopsProvided
+	}
+
 	// If the final hop has encrypted data, then we know this is a
 	// blinded payment. In blinded payments, MPP records are not set
 	// for split payments and the recipient is responsible for using
